@@ -60,8 +60,17 @@ theorem runTo_store (d : Doc V E) (cfg : Cfg) (sh : Shared V E) (t : Thread V E)
     unfold runTo
     simp only
     cases (advP d cfg sh p).1 with
-    | enter T' r' k' => simp [applyAdv]
+    | enter T' r' k' => simp only [applyAdv]; split <;> simp
     | fin res => exact finish_notWaiting t res T r k
+
+theorem startLoad_store (d : Doc V E) (cfg : Cfg) (sh : Shared V E) (t : Thread V E) (r : Nat) (p : Prog V E) :
+    (startLoad d cfg sh t r p).1.slots = sh.slots ∧
+    (∀ f ∈ t.stack, f.store = true → f ∈ (startLoad d cfg sh t r p).2.stack) ∧
+    (∀ T r' k, (startLoad d cfg sh t r p).2.ctl ≠ .waiting T r' k) := by
+  unfold startLoad
+  split
+  · exact ⟨rfl, fun f hf _ => hf, by intro T r' k; simp⟩
+  · exact runTo_store d cfg sh t p
 
 theorem runTo_store' {d : Doc V E} {cfg : Cfg} {sh : Shared V E} {t : Thread V E} {p : Prog V E}
     {x : Shared V E × Thread V E} (h : runTo d cfg sh t p = x) :
@@ -73,10 +82,10 @@ theorem afterLookup_store (d : Doc V E) (cfg : Cfg) (sh : Shared V E) (t : Threa
     (afterLookup d cfg sh t T r k T' res).1.slots = sh.slots ∧
     (∀ f ∈ t.stack, f.store = true → f ∈ (afterLookup d cfg sh t T r k T' res).2.stack) ∧
     (∀ T1 r1 k1, (afterLookup d cfg sh t T r k T' res).2.ctl ≠ .waiting T1 r1 k1) := by
-  have fb := runTo_store d cfg sh { t with stack := ⟨T, r, false, k⟩ :: t.stack } (d.body T r)
-  have fb' : (runTo d cfg sh { t with stack := ⟨T, r, false, k⟩ :: t.stack } (d.body T r)).1.slots = sh.slots ∧
-      (∀ f ∈ t.stack, f.store = true → f ∈ (runTo d cfg sh { t with stack := ⟨T, r, false, k⟩ :: t.stack } (d.body T r)).2.stack) ∧
-      (∀ T1 r1 k1, (runTo d cfg sh { t with stack := ⟨T, r, false, k⟩ :: t.stack } (d.body T r)).2.ctl ≠ .waiting T1 r1 k1) :=
+  have fb := startLoad_store d cfg sh { t with stack := ⟨T, r, false, k⟩ :: t.stack } r (d.body T r)
+  have fb' : (startLoad d cfg sh { t with stack := ⟨T, r, false, k⟩ :: t.stack } r (d.body T r)).1.slots = sh.slots ∧
+      (∀ f ∈ t.stack, f.store = true → f ∈ (startLoad d cfg sh { t with stack := ⟨T, r, false, k⟩ :: t.stack } r (d.body T r)).2.stack) ∧
+      (∀ T1 r1 k1, (startLoad d cfg sh { t with stack := ⟨T, r, false, k⟩ :: t.stack } r (d.body T r)).2.ctl ≠ .waiting T1 r1 k1) :=
     ⟨fb.1, fun f hf hs => fb.2.1 f (List.mem_cons_of_mem _ hf) hs, fb.2.2⟩
   unfold afterLookup
   cases res with
@@ -155,8 +164,8 @@ theorem stepT_shape {d : Doc V E} {cfg : Cfg} {i : Nat} {sh sh' : Shared V E} {t
       · -- claim
         rename_i hl
         simp only [Option.some.injEq] at hs
-        have h := runTo_store d cfg { sh with slots := (r, .inProcess i) :: sh.slots }
-          ⟨.pushed T r k, ⟨T, r, true, k⟩ :: stack, chain, todo, out⟩ (d.compute T r)
+        have h := startLoad_store d cfg { sh with slots := (r, .inProcess i) :: sh.slots }
+          ⟨.pushed T r k, ⟨T, r, true, k⟩ :: stack, chain, todo, out⟩ r (d.compute T r)
         rw [hs] at h
         simp only at h
         obtain ⟨h1, h2, h3⟩ := h
@@ -195,7 +204,7 @@ theorem stepT_shape {d : Doc V E} {cfg : Cfg} {i : Nat} {sh sh' : Shared V E} {t
         have := afterLookup_store d cfg sh ⟨.pushed T r k, stack, chain, todo, out⟩ T r k T' res'
         exact same _ hs this.1 this.2.1 this.2.2
     · simp only [Option.some.injEq] at hs
-      have h := runTo_store d cfg sh ⟨.pushed T r k, ⟨T, r, false, k⟩ :: stack, chain, todo, out⟩ (d.compute T r)
+      have h := startLoad_store d cfg sh ⟨.pushed T r k, ⟨T, r, false, k⟩ :: stack, chain, todo, out⟩ r (d.compute T r)
       exact same _ hs h.1 (fun f hf hst => h.2.1 f (List.mem_cons_of_mem _ hf) hst) h.2.2
   | waiting T r k =>
     simp only [stepT] at hs
@@ -205,6 +214,13 @@ theorem stepT_shape {d : Doc V E} {cfg : Cfg} {i : Nat} {sh sh' : Shared V E} {t
       have := afterLookup_store d cfg sh ⟨.waiting T r k, stack, chain, todo, out⟩ T r k T' res'
       exact same _ hs this.1 this.2.1 this.2.2
     · simp at hs
+  | logging T r k =>
+    simp only [stepT, Option.some.injEq] at hs
+    exact same _ hs rfl (fun f hf _ => hf) (by intro T r k; simp)
+  | loading r p =>
+    simp only [stepT, Option.some.injEq] at hs
+    have := runTo_store d cfg sh ⟨.loading r p, stack, chain, todo, out⟩ p
+    exact same _ hs this.1 this.2.1 this.2.2
   | storing res =>
     cases stack with
     | nil => simp [stepT] at hs
@@ -354,6 +370,8 @@ theorem stepT_enabled (d : Doc V E) (cfg : Cfg) (i : Nat) (sh : Shared V E) (t :
   | waiting T r k =>
     obtain ⟨T', res, h⟩ := hwait T r k rfl
     simp [stepT, h]
+  | logging T r k => simp [stepT]
+  | loading r p => simp [stepT]
   | storing res =>
     cases stack with
     | nil => exact absurd rfl (hstore res rfl)
